@@ -36,7 +36,7 @@ type Config struct {
 // Op is one step of a history. Every selector is reduced modulo the current population, so any
 // subsequence of a history is executable.
 type Op struct {
-	K string `json:"k"` // resolve | reserr | state | pick | done | adv | failnew | cancel
+	K string `json:"k"` // resolve | reserr | state | pick | done | adv | failnew | cancel | burst
 
 	Addrs int  `json:"addrs,omitempty"` // resolve: index into addrSets (0=A 1=B 2=C 3=empty 4..8=variants that differ only in attributes / server name / metadata)
 	Cfg   int  `json:"cfg,omitempty"`   // resolve: 0=case config 1=nil 2=foreign type 3=alternative config
@@ -62,6 +62,7 @@ type Op struct {
 	Mode int   `json:"mode,omitempty"` // adv: 0 = Ns; 1 = to the detector boundary of slot Idx (+Eps ns)
 	Eps  int   `json:"eps,omitempty"`
 	B    bool  `json:"b,omitempty"` // failnew
+	N    int   `json:"n,omitempty"` // burst: number of pick+ok-completion pairs of method M with key Key
 }
 
 // Case is a complete history with its configuration.
